@@ -1,6 +1,7 @@
 package props
 
 import (
+	"crypto/tls"
 	"encoding/json"
 	"fmt"
 	"strings"
@@ -32,6 +33,7 @@ type c08Case struct {
 	Classes []string     `json:"classes,omitempty"`
 	Scripts [][][]string `json:"scripts,omitempty"`
 	Choices []int        `json:"choices,omitempty"`
+	TLS     bool         `json:"tls,omitempty"` // state: the connection arrived over the TLS port (no client certificate)
 }
 
 func swapCase(s string) string {
@@ -103,7 +105,7 @@ type c08State struct {
 }
 
 // c08Replay runs a history on one fresh connection and judges every step.
-func c08RunHistory(events []c08Event) (st c08State, clause, detail string) {
+func c08RunHistory(events []c08Event, overTLS bool) (st c08State, clause, detail string) {
 	d := srv.NewDouble()
 	s := srv.NewServer(d)
 	s.SetRequirePass(c08Pass)
@@ -158,7 +160,11 @@ func c08RunHistory(events []c08Event) (st c08State, clause, detail string) {
 			take()
 		}
 	}
-	out := srv.RunConn(s, conn)
+	var tlsState *tls.ConnectionState
+	if overTLS {
+		tlsState = &tls.ConnectionState{HandshakeComplete: true, Version: tls.VersionTLS13}
+	}
+	out := srv.RunConnTLS(s, conn, tlsState)
 	if cl, dt := crashClause(out); cl != "" {
 		return st, cl, dt
 	}
@@ -213,6 +219,12 @@ func c08RunHistory(events []c08Event) (st c08State, clause, detail string) {
 }
 
 func c08StateSearch(c *fw.Ctx) {
+	for _, overTLS := range []bool{false, true} {
+		c08StateSearchOn(c, overTLS)
+	}
+}
+
+func c08StateSearchOn(c *fw.Ctx, overTLS bool) {
 	events := c08Events()
 	// work units: first event; each worker owns a share
 	seen := map[string]bool{}
@@ -221,7 +233,7 @@ func c08StateSearch(c *fw.Ctx) {
 	visit := func(hist []c08Event) {
 		c.Eval()
 		c.Count("transitions", 1)
-		st, clause, detail := c08RunHistory(hist)
+		st, clause, detail := c08RunHistory(hist, overTLS)
 		if clause != "" {
 			var raws [][]byte
 			var classes []string
@@ -230,11 +242,15 @@ func c08StateSearch(c *fw.Ctx) {
 				classes = append(classes, e.Class)
 			}
 			last := hist[len(hist)-1]
-			c.Violation("C08|state|"+clause+"|"+last.Class, detail+fmt.Sprintf(" history=%s", c08HistString(hist)), c08Case{Kind: "state", History: raws, Classes: classes})
+			transport := "plain"
+			if overTLS {
+				transport = "tls"
+			}
+			c.Violation("C08|state/"+transport+"|"+clause+"|"+last.Class, detail+fmt.Sprintf(" transport=%s history=%s", transport, c08HistString(hist)), c08Case{Kind: "state", History: raws, Classes: classes, TLS: overTLS})
 			return
 		}
 		key := fmt.Sprintf("%v|%q|%q|%d|%v", st.Auth, st.User, st.Pw, st.DB, st.Unlocked)
-		c.DistinctAdd("states", "state|"+key)
+		c.DistinctAdd("states", fmt.Sprintf("state|%v|", overTLS)+key)
 		if seen[key] {
 			return
 		}
@@ -442,7 +458,7 @@ func c08Replay(raw json.RawMessage) (string, bool, error) {
 			}
 			hist = append(hist, e)
 		}
-		st, clause, detail := c08RunHistory(hist)
+		st, clause, detail := c08RunHistory(hist, cs.TLS)
 		return fmt.Sprintf("history=%s state=%+v clause=%q %s", c08HistString(hist), st, clause, detail), clause != "", nil
 	}
 	x := c08SchedExplorer(cs, 0)
@@ -459,7 +475,7 @@ func init() {
 	fw.Register(&fw.Prop{
 		ID:          "C08",
 		Level:       "model_checking",
-		Rule:        "(STATE) breadth-first search over event histories on one connection of a server with requirepass=Secret1; events = AUTH with each candidate of a dictionary built around the password (empty, null bulk, every strict prefix, password+suffix, +NUL, case-swapped, embedded CRLF, leading space), two-argument forms with wrong/empty users, missing and surplus arguments, forms the statement leaves open (no expectation on the reply), and probes (GET/SET via the handler, PING/ECHO/CONFIG, SELECT, an application executor); canonical state = (IsAuthrized, UserName, Password, Database) read from the live connection object through Server.Conns() at every step plus the model's 'unlocked'; depth 4 (thorough 6) or closure. (SCHED) two connections (thorough three) each running one of 8 scripts (one- and two-argument AUTH) through the real accept loop, every schedule within deviation bound 2; a handler call or non-error reply for a client that has not itself presented the password is a violation.",
+		Rule:        "(STATE) breadth-first search over event histories on one connection of a server with requirepass=Secret1, once as a plain connection and once as a connection that arrived over the TLS port (finished handshake, no client-certificate rule); events = AUTH with each candidate of a dictionary built around the password (empty, null bulk, every strict prefix, password+suffix, +NUL, case-swapped, embedded CRLF, leading space), two-argument forms with wrong/empty users, missing and surplus arguments, forms the statement leaves open (no expectation on the reply), and probes (GET/SET via the handler, PING/ECHO/CONFIG, SELECT, an application executor); canonical state = (IsAuthrized, UserName, Password, Database) read from the live connection object through Server.Conns() at every step plus the model's 'unlocked'; depth 4 (thorough 6) or closure. (SCHED) two connections (thorough three) each running one of 8 scripts (one- and two-argument AUTH) through the real accept loop, every schedule within deviation bound 2; a handler call or non-error reply for a client that has not itself presented the password is a violation.",
 		Assumptions: []string{"AUTH '' P, AUTH default P and three-argument AUTH carry no expectation on the reply, only the gate invariant afterwards"},
 		Run:         c08Run,
 		Replay:      c08Replay,
